@@ -24,6 +24,11 @@ fn main() {
             let file = args.get(3).unwrap_or_else(|| usage());
             cli::cmd_replay(prop, file, args.iter().any(|a| a == "--trace"))
         }
+        Some("selftest") => {
+            let n: usize = args.get(3).and_then(|s| s.parse().ok()).unwrap_or(2000);
+            let w: usize = args.get(4).and_then(|s| s.parse().ok()).unwrap_or(1);
+            cli::cmd_selftest_digests(n, w)
+        }
         _ => usage(),
     };
     std::process::exit(code);
